@@ -50,6 +50,16 @@ func chainCheckReqs(chain, timeArg, alg string) []req {
 		} else {
 			premise = []LP{A("+" + rsa), A("-" + ec), A(fmt.Sprintf("-Eq(%s, %d)", ecSize(leaf), row.size))}
 		}
+		// the size is known to be another one of the same family
+		for _, o := range algTable {
+			if o.rsa == row.rsa && o.size != row.size {
+				if row.rsa {
+					premise = append(premise, A(fmt.Sprintf("+Eq(%s, %d)", rsaSize(leaf), o.size)))
+				} else {
+					premise = append(premise, A(fmt.Sprintf("+Eq(%s, %d)", ecSize(leaf), o.size)))
+				}
+			}
+		}
 		eq := fmt.Sprintf("Eq(%s, %d)", alg, row.alg)
 		rs = append(rs, req{"declared algorithm equals the one dictated by the leaf key: " + row.name, AnyOf(append(premise, A("+"+eq))...)})
 	}
